@@ -170,12 +170,13 @@ def Trigger(cb, ev, *args):
     return {"k": "trigger", "cb": cb, "ev": ev, "args": list(args), "p": newp()}
 
 
-def Program(pid, fns, globs=(), feats=None, sings=(), host=None, imports=()):
-    """sings: [(name, type text, zero value expr)]; host: {name: (value expr, JV)} values the host provides"""
+def Program(pid, fns, globs=(), feats=None, sings=(), host=None, imports=(), impls=()):
+    """sings: [(name, type text, zero value expr)]; host: {name: (value expr, JV)} values the host provides;
+    impls: [{"templ", "caps" (list or None), "sing", "methods": [function names]}] - the methods are entries of fns"""
     host = host or {}
     sg = [{"x": n, "e": (host[n][0] if n in host else z), "decl": t} for n, t, z in sings]
     return {"id": pid, "fns": fns, "globals": sg + [{"x": x, "e": e} for x, e in globs], "feats": feats or {},
-            "host": {n: v[1] for n, v in host.items()}, "imports": list(imports)}
+            "host": {n: v[1] for n, v in host.items()}, "imports": list(imports), "impls": [dict(i) for i in impls]}
 
 
 # ---- rendering -----------------------------------------------------------------------------
@@ -475,16 +476,28 @@ def render(prog):
         w.w(";\n")
     if prog["globals"]:
         w.w("\n")
-    names = [f for f in prog["fns"] if f != "main"] + (["main"] if "main" in prog["fns"] else [])
-    todo = [(name, prog["fns"][name]) for name in names] + [(name, f) for name, f in prog.get("dupfns", ())]
-    for name, f in todo:
+    def r_fn(name, f, ind):
         params = ["%s: %s" % (p, sname) for p, sname in f.get("sps", [])] + ["%s: %s" % (p, t) for p, t in zip(f["ps"], f["pts"])]
         w.w("%sfn %s(%s)" % ("event " if f.get("event") else "", name, ", ".join(params)))
         if f["ret"] != "null":
             w.w(" -> " + f["ret"])
         w.w(" ")
-        r_block(w, f["body"], 0)
+        r_block(w, f["body"], ind)
         w.w("\n\n")
+
+    in_impl = set()
+    for im in prog.get("impls", ()):
+        caps = "" if im.get("caps") is None else " with { %s }" % ", ".join(im["caps"])
+        w.w("impl %s%s for %s {\n" % (im["templ"], caps, im["sing"]))
+        for m in im["methods"]:
+            in_impl.add(m)
+            w.w("    ")
+            r_fn(m, prog["fns"][m], 1)
+        w.w("}\n\n")
+    names = [f for f in prog["fns"] if f != "main" and f not in in_impl] + (["main"] if "main" in prog["fns"] else [])
+    todo = [(name, prog["fns"][name]) for name in names] + [(name, f) for name, f in prog.get("dupfns", ())]
+    for name, f in todo:
+        r_fn(name, f, 0)
     return w.text(), w.spans
 
 
